@@ -224,5 +224,14 @@ func vpH_C01_verify() {
 	if vpAnd(ok, err == nil) {
 		vpAssert(verifiedRight, "C01.signature-checked-over-the-id-under-the-pubkey")
 	}
+	// a second, different event under the same pubkey and signature strings: the verdict
+	// must again follow from ITS id and ITS signature check (no state carried over)
+	ev2 := &Event{ID: "ID", Pubkey: "PK", Sig: "SIG", Kind: 1, CreatedAt: 3, Tags: []Tag{}, Content: "other"}
+	serialized, _ = ev2.Serialize()
+	idOK, pkOK, sigOK, parsePkOK, parseSigOK = true, true, true, true, true
+	schnorrOK = vpBool("schnorr-verifies-2")
+	idByte, hashByte = vpByte("id-bytes-2"), vpByte("digest-2")
+	ok2, err2 := ev2.Verify()
+	vpAssert(vpIff(vpAnd(ok2, err2 == nil), vpAnd(idByte == hashByte, schnorrOK)), "C01.second-event-judged-on-its-own")
 	vpReach("end")
 }
